@@ -494,8 +494,10 @@ class Unit:
         return out
 
     # ------------------------------------------------------------------ build
-    def build(self, kf_on=True, vacuity=False):
-        """Returns list[Line] of the woven file."""
+    def build(self, kf_on=True, vacuity=False, isolate=()):
+        """Returns list[Line] of the woven file.  `isolate`: indices of fn items whose body could not be
+        processed (rustc / VIR error inside it): their body is dropped and the fn kept under its contract
+        (external_body) so that every other function is still decided; the isolated fn itself is undecided."""
         cache = {}
         out = []
         for kind, seg in self.segments:
@@ -518,6 +520,15 @@ class Unit:
                 raise UnitError('%s: %s' % (self.name, e))
             lowered = self._lower(it, text, bo)
             woven = self._weave(it, seg, lowered, first_line, kf_on)
+            if seg in isolate:
+                res = [Line('#[verifier::external_body] // isolated: body not processable, contract assumed for callers', 'raw')]
+                for l in woven:
+                    if 'body_open' in l.flags:
+                        res.append(Line(l.text[:len(l.text) - len(l.text.lstrip())] + '{ unimplemented!() }', 'raw', (), None, None, seg))
+                        break
+                    res.append(l)
+                out.extend(res)
+                continue
             if vacuity and not it.trusted:
                 res = []
                 done = False
@@ -584,10 +595,12 @@ class Unit:
             if it.kind == 'item' and rustscan.parse_path(it.path_text)[-1][0] == 'fn']
         return out
 
-    def unweave_ok(self, lines):
+    def unweave_ok(self, lines, skip=()):
         """Strip every inserted line and compare with a fresh lowering of /repo."""
         cache = {}
         for idx, it in enumerate(self.items):
+            if idx in skip:
+                continue
             text, first_line, bo = self._extract(it, cache)
             lowered = [l[0] for l in self._lower(it, text, bo)]
             got = [l.text for l in lines if l.item == idx and l.kind == 'real']
